@@ -107,6 +107,14 @@ def run(ctx):
                                   script=scripts[e.get("script", 0)], event={k: e[k] for k in e if k not in ("expected", "decoded")}))
             violations.append(dict(key=tg, replay=rp, what="script %s" % e.get("script")))
     violations += fam_e2e.judge_c11(ctx, e2e_events, binp)
+    # test recordings requested on top of motion recordings (three recorders wired in handleConn, one directory): every
+    # published file still decodes to exactly the frames it was given, with and without the throttle in the chain
+    oruns = fam_e2e.c17_runs(ctx, binp) + [r for r in fam_e2e.c17_runs(ctx, binp, throttled=True)]
+    have = {v["key"] for v in violations}
+    for v in fam_e2e.judge_c11(ctx, oruns, binp):
+        if v["key"] not in have:
+            have.add(v["key"])
+            violations.append(v)
     # ---- beyond the listed properties: how a rewritten config.toml takes effect (ConfigWatch.tla); reported as a NOTE
     cw = dict(design=None, rewrites=0, accepted=None, note=None)
     try:
